@@ -1588,15 +1588,25 @@ class connector( client ):
     #     Use validate to post-process these results, to fill in data for reads (from the request).
     # 
     def synchronous( self, operations, index=0, fragment=False, multiple=0, timeout=None ):
-        """Issue the requested 'operations' synchronously.  Yield each harvested record.
+        """Issue the requested 'operations' synchronously.  Yield each harvested record.  As for
+        pipeline, every request issued must be harvested; if communication ceases (EOF, timeout)
+        before that, raise instead of silently yielding fewer results than operations.
 
         """
-        for col in self.harvest(
-                issued=self.issue(
+        requests		= [0]
+        def issuing():
+            for iss in self.issue(
                     operations=operations, index=index, fragment=fragment, multiple=multiple,
-                    timeout=timeout ),
-                timeout=timeout ):
+                    timeout=timeout ):
+                requests[0]    += 1
+                yield iss
+        complete		= 0
+        for col in self.harvest( issued=issuing(), timeout=timeout ):
+            complete	       += 1
             yield col
+        assert complete == requests[0], \
+            "Communication ceased before harvesting all responses: %3d/%3d" % (
+                complete, requests[0] )
 
     def pipeline( self, operations, index=0, fragment=False, multiple=0, timeout=None, depth=1 ):
         """Issue the requested 'operations', allowing up to 'depth' outstanding requests to be in the
